@@ -20,7 +20,9 @@ def add(pid, text, note, technique, design):
     }
 
 CONV_NOTE = ("Trusted: TLC, the concretisation tables (finite sample of each token class), alpha (vf/domain.py, vf/pyview.py). "
-             "Bounds: <=4 parameters + **kwargs + return, chains <=3 hops. Known findings (known_findings.json) mask regressions inside their region.")
+             "Tables: T0, T1 (falsy Literal members), TN (related names, dashes, Optional-prefixed prose, 1 / 1.0 / True side by side), TL (every text longer than "
+             "the line), S<n> (prose of exactly n characters, swept), seeded random tables. Bounds: <=4 parameters + **kwargs + return, chains <=3 hops. "
+             "Known findings (known_findings.json) mask regressions inside their region; chain failures are matched by exact sub-clause and outcome.")
 CONV_TECH = "TLA+ spec (ConvertRel/Convert.tla) model-checked with TLC; real emit/parse executions recorded as NDJSON traces and validated clause by clause by TLC (ConvertTrace.tla)"
 add("C01", "TLC checks the hop relation of Convert.tla (ChainRefines, Tight, FixedPointConsistent, StyleSound) exhaustively over the single/pair "
     "slot domains; every rest/numpydoc/google emit+parse of the real code over TLC-exported descriptions x tables is validated by TLC "
@@ -45,7 +47,9 @@ add("C08", "Three passes emit;parse per kind and option record; TLC checks TextS
     "(parse 3 = parse 2); FixedPointConsistent is model-checked on the spec (the stutter demanded is compatible with the hop relation).",
     CONV_NOTE, CONV_TECH, "DESIGN.md 5.1, 8 C08")
 add("C18", "One interpreter per DOCTRANS_LINE_LENGTH (unset, 40..200); in each, every kind is emitted unwrapped and wrapped and both are parsed; "
-    "TLC checks the per-hop clauses and ConfigTransparent (the two parsed descriptions are equal, prose modulo whitespace).",
+    "TLC checks the per-hop clauses and ConfigTransparent (the two parsed descriptions are equal, prose modulo whitespace).  A second sweep runs "
+    "one interpreter per *consecutive* width (44..103 quick, 36..131 thorough) on a small description set, so that the line boundary falls on every "
+    "position of every entry.",
     CONV_NOTE, CONV_TECH, "DESIGN.md 5.1, 8 C18")
 
 
@@ -53,23 +57,24 @@ add("C15", "Locate.tla: TLC checks that the declarative Resolve is a partial fun
     "every module of the level-set domain (tiny exhaustive; small/medium in thorough). Every (module, path) of the TLC-exported domain is "
     "rendered to source and resolved by the real find_in_ast and RewriteAtQuery; TLC validates the returned node address and the set of "
     "changed nodes against Resolve (FindExact, ReplaceExact, ReplacedFlag, *NeverRaises).",
-    "Trusted: TLC, the renderer and the independent address walk over ast (vf/locate_check.py). Bounds: nesting <= 3, names a/m/A/B, "
+    "Trusted: TLC, the renderer and the independent address walk over ast (vf/locate_check.py). Bounds: nesting <= 3, names a/m/A/B and the look-alikes am/BA, "
     "curated level sets (Locate.tla).", "TLA+ spec (Locate.tla, PlusCal-style Descend vs declarative Resolve) model-checked with TLC; "
     "real lookups/replacements validated by TLC (LocateTrace.tla)", "DESIGN.md 5.6, 8 C15")
 
 
 SYNC_NOTE = ("Trusted: TLC, the project builder / ast-based observer in vf/sync_check.py (never doctrans), two fixed well-behaved interface "
-             "versions v1/v2. Bounds: one file per kind, <= 4 surrounding statements, histories of <= 5 steps, one fault per invocation.")
-SYNC_TECH = "TLA+ spec (Sync.tla: Begin/Decide/Tmp/Rename/Open/Write/End/Fault/EditTruth) model-checked with TLC for the intended design; real sync histories recorded and validated clause by clause by TLC (SyncTrace.tla)"
-add("C09", "TLC proves Agreement at End for every pre-state combination of Sync.tla (3.6M states). Real histories: truth kind x kinds given (2 or 3) x "
-    "top-level / method target x every target pre-state (missing, empty, definition absent, stale, agreeing canonical / hand-written, no trailing "
+             "versions v1/v2 (v2 with a return entry). Bounds: one file per kind plus an optional second file of the truth's kind, <= 5 surrounding statements, "
+             "histories of <= 5 steps, one fault per invocation. Files are named plainly, through a symbolic link or relatively; CLI runs use distinct hash seeds.")
+SYNC_TECH = "TLA+ spec (Sync.tla: Begin/Decide/Tmp/Rename/Open/Write/End/Fault/EditTruth/SwitchTruth; switches Atomic, SkipTruth, BySpelling, Twin, SkipKind) model-checked with TLC for the intended design; real sync histories recorded and validated clause by clause by TLC (SyncTrace.tla)"
+add("C09", "TLC proves Agreement at End for every pre-state combination of Sync.tla (7-10M states; Sync_twin.cfg with a second file of the truth's kind). Real histories: truth kind x kinds given (2 or 3) x "
+    "top-level / method / nested-class target x every target pre-state (missing, empty, definition absent, stale, agreeing canonical / hand-written, no trailing "
     "newline, class missing), via ground_truth and via `python -m doctrans sync`; after the run every target is read with ast and must carry the "
     "truth's interface version.", SYNC_NOTE, SYNC_TECH, "DESIGN.md 5.7, 8 C09")
 add("C10", "TLC proves Idempotent (action property), TruthUntouched, ReportTruthful, Untouched on Sync.tla. Real histories of 2-5 steps (sync, sync; "
-    "sync, sync, edit truth, sync, sync; CLI) are validated: bytes of every file between runs, returned report and printed lines.",
+    "sync, sync, edit truth, sync, sync; sync, sync, another file becomes the truth, sync, sync; CLI runs in separate interpreters with distinct hash seeds) are validated: bytes of every file between runs, returned report and printed lines.",
     SYNC_NOTE, SYNC_TECH, "DESIGN.md 5.7, 8 C10")
 add("C11", "TLC proves FrameKept on Sync.tla; real histories over targets surrounded by imports, helper functions sharing parameter names, classes "
-    "with same-named methods, sibling class members, with and without trailing newline: every other statement must keep its ast.dump and order, "
+    "with same-named methods, sibling class members, look-alike names before the definition, neighbours with positional-only / *args / keyword-only / **kwargs parameters, an async def, a re-binding of the name after its definition, a module docstring, with and without trailing newline / trailing blanks: every other statement must keep its ast.dump and order, "
     "and the file must parse.", SYNC_NOTE, SYNC_TECH, "DESIGN.md 5.7, 8 C11")
 add("C20", "TLC proves OldOrNew for the write-to-sibling-then-rename design with a Fault action enabled between any two steps (and refutes it for "
     "open-truncate-then-write); faults are injected into real sync runs at every write (before open, after open, mid-write of the 1st/2nd file) and "
@@ -84,7 +89,7 @@ add("C07", "Merge.tla: TLC explores every schedule of the docstring/signature me
     "them for the set-iteration / front-padding designs). Generated definitions (function, method, class+__init__; positional / keyword-only / "
     "**kwargs; annotated or not; 3 docstring styles; partial, out-of-order documentation) are executed and read with inspect, parsed by "
     "doctrans under several PYTHONHASHSEEDs, and TLC validates the result against Python's view (MergeTrace.tla).",
-    "Trusted: TLC, the generator and the inspect-based observer (vf/merge_check.py). Bounds: 3 parameters + **kwargs, <= 2 class attributes; "
+    "Trusted: TLC, the generator and the inspect-based observer (vf/merge_check.py). Bounds: 3 parameters + **kwargs, <= 2 class attributes, __init__ with or without a docstring; "
     "positional-only and *args excluded (outside the stated subset).",
     "TLA+ spec (Merge.tla, algorithm as steps with the set iteration as a schedule) model-checked with TLC; real parses validated by TLC (MergeTrace.tla)",
     "DESIGN.md 5.3, 8 C07")
@@ -92,13 +97,14 @@ add("C12", "Process.tla: outputs must be a function of (operation, input) whatev
     "discipline (Functional) and, on Merge.tla, that the merge result does not depend on the schedule. Real experiment: one interpreter per "
     "PYTHONHASHSEED (0..N and random) x 3 call orders x 2 rounds, each parsing every generated definition and emitting all six kinds from it; "
     "the merged (process, sequence) history is validated by TLC against the memo (ProcessTrace.tla).",
-    "Trusted: TLC, digests of canonical serialisations (D18). Bounds: the generated definitions of C07; gen is covered by C19.",
+    "Trusted: TLC, digests of canonical serialisations (D18). Bounds: the generated definitions of C07 plus one or two documented names that are not parameters (Merge_extras.cfg), "
+    "a section after the parameters, defaults 0 / 1 / 0.0 / 1.0 / True / False announced in the prose; gen is covered by C19.",
     "TLA+ spec (Process.tla memo + Merge.tla schedule exploration) model-checked with TLC; multi-process call logs validated by TLC (ProcessTrace.tla)",
     "DESIGN.md 5.8, 8 C12")
 add("C13", "Sharing.tla: TLC explores every sequence of emitter / parser calls on one shared object (state space = reachable taint sets) and proves "
     "NonInterference / ObsEquiv when every call works on a copy, and refutes it with a two-call counterexample for in-place write sets. Real "
-    "sequences: all sequences with repetition up to length 3 (all of length 4 in thorough) over 7 emitters on one shared IR x 4 IRs, and all "
-    "sequences up to 4 of parse calls on one shared AST; each call's output is compared with the same call on a fresh deep copy and the shared "
+    "sequences: all sequences with repetition up to length 3 (all of length 4, and of length 5 on two descriptions, in thorough) over 7 emitters on one shared IR x 4 IRs, and all "
+    "sequences up to 4 (6 in thorough) of parse calls on one shared AST (documented, docstring-less, with a classmethod); each call's output is compared with the same call on a fresh deep copy and the shared "
     "object's taints are validated by TLC (SharingTrace.tla).",
     "Trusted: TLC, the taint observer (vf/sharing_check.py). Outputs compared as text / canonical IR serialisation.",
     "TLA+ spec (Sharing.tla write-set / read-set model) model-checked with TLC; real call sequences validated by TLC (SharingTrace.tla)",
@@ -107,7 +113,7 @@ add("C13", "Sharing.tla: TLC explores every sequence of emitter / parser calls o
 
 add("C17", "Prose.tla enumerates every case (write/read x 9 prefix classes x 4 announcement phrases + none x 17 value classes x 3 suffixes x declared "
     "type x removal on/off; 6,962 well-formed cases) and states ValueBack / TypeBack / ProseBack / Untouched as a total expected outcome; TLC checks "
-    "the laws are well defined and exports the cases; each is realised with concrete text (2 tables) and run through the real set_default_doc / "
+    "the laws are well defined and exports the cases; each is realised with concrete text (3 tables) and run through the real set_default_doc / "
     "extract_default; TLC validates the observed outcome (ProseTrace.tla).",
     "Trusted: TLC, the concretisation tables and outcome classifier (vf/prose_check.py). The state space is small: the specification contributes the "
     "case analysis and the laws, the weight of evidence is one real call per case (DESIGN 5.5).",
@@ -115,28 +121,28 @@ add("C17", "Prose.tla enumerates every case (write/read x 9 prefix classes x 4 a
     "DESIGN.md 5.5, 8 C17")
 
 
-add("C16", "Body.tla: TLC enumerates every body up to 4 statements over the statement tokens and checks Verbatim / ReturnOnce for the structural "
+add("C16", "Body.tla: TLC enumerates every body up to 4 (thorough: 5) statements over the statement tokens and checks Verbatim / ReturnOnce / HeldIntact for the structural "
     "design, and refutes them for the transcribed positional special cases (leading string expression, argument_parser assignment, trailing return). "
     "Every body (all up to length 2, a sample / all of length 3-4) is rendered to real statements, pushed through parse + emit to the same kind and "
-    "name, and through emit.class_(emit_call=True); TLC validates the observed token sequence and the set of rewritten name labels (BodyTrace.tla).",
-    "Trusted: TLC, the statement templates and the classifier (vf/body_check.py). Bounds: bodies <= 4 statements over 10 templates, 2 parameters.",
+    "name, through emit.class_(emit_call=True), and again after a class / argparse function was made from the same description (HeldIntact); TLC validates the observed token sequence and the set of rewritten name labels (BodyTrace.tla).",
+    "Trusted: TLC, the statement templates and the classifier (vf/body_check.py). Bounds: bodies <= 4 (thorough 5) statements over 10 templates, 2 parameters.",
     "TLA+ spec (Body.tla token-sequence model) model-checked with TLC; real parse+emit runs validated by TLC (BodyTrace.tla)", "DESIGN.md 5.4, 8 C16")
 
 
 add("C14", "SyncProps.tla: TLC checks OnlyAddressedChanged, AllPairsApplied (last writer wins) and UnresolvedIsError over all input/output property "
     "maps, 1-2 pairs, wrap on/off, resolvable or not. Real calls: every (input location, output location) pair of two generated modules covering "
     "module-level (annotated) assignments, class attributes, function / method arguments, positional and keyword-only, same-named parameters in other "
-    "definitions; wrap on/off; eval mode on every output location; random 2-3 pair calls; unresolved addresses. The input file's bytes, the output's "
+    "definitions, arguments without defaults left of arguments with defaults; wrap on/off; eval mode on every output location; random 2-3 pair calls (120 quick, 4000 thorough); unresolved addresses including ones with an empty component. The input file's bytes, the output's "
     "ast (every node by name / annotation / default) are observed and validated by TLC (SyncPropsTrace.tla).",
     "Trusted: TLC, the ast observer (vf/syncprops_check.py). Two fixed modules; the addressed node's own default is not judged; wrapping a property "
     "without annotation slot is declared unsupported by the code (NotImplementedError) and is outside the domain.",
     "TLA+ spec (SyncProps.tla) model-checked with TLC; real sync_properties calls validated by TLC (SyncPropsTrace.tla)", "DESIGN.md 5.8, 8 C14")
-add("C19", "Gen.tla: TLC enumerates all 2,880 configurations (mapping of 1-3 distinct entries, type, name template, prepend, 0-2 import lines, output "
-    "exists) with the expected item sequence, checks OnePerEntryInOrder / Layout / ExistingKept and the action property RefusesExisting. Each "
+add("C19", "Gen.tla: TLC enumerates all 12,240 configurations (mapping of 1-3 distinct entries among 5, type, name template, prepend, 0-2 import lines, output "
+    "exists, mapping keys equal to or different from the objects' names) with the expected item sequence, checks OnePerEntryInOrder / Layout / ExistingKept and the action property RefusesExisting. Each "
     "configuration (a sample in quick, all in thorough) is run as a real `python -m doctrans gen` subprocess on a generated input module, followed by "
-    "a second invocation; the output module is read with ast (items, names, __all__, parameter names of every definition, node kinds) and validated "
+    "a second invocation; the output module is read with ast (items, names, __all__, parameter names and defaults of every definition, node kinds) and validated "
     "by TLC (GenTrace.tla).",
-    "Trusted: TLC, the ast observer (vf/gen_check.py). Entries are drawn from four fixed definitions (2 classes with __init__, 2 functions).",
+    "Trusted: TLC, the ast observer (vf/gen_check.py). Entries are drawn from five fixed definitions (3 classes with __init__, two of them twins sharing their docstrings, 2 functions).",
     "TLA+ spec (Gen.tla) model-checked with TLC; real gen runs validated by TLC (GenTrace.tla)", "DESIGN.md 5.8, 8 C19")
 
 
